@@ -806,7 +806,7 @@ def _flag_locals(body):
     return {l for l, vs in defs.items() if vs and all(v is not None for v in vs)}
 
 
-def shortest_path_flags(F, body, du, start, goals, removed=(), removed_edges=()):
+def shortest_path_flags(F, body, du, start, goals, removed=(), removed_edges=(), known0=None):
     """Like Body.shortest_path, but infeasible combinations through materialised flags are not followed."""
     from collections import deque
     flags = _flag_locals(body)
@@ -843,7 +843,7 @@ def shortest_path_flags(F, body, du, start, goals, removed=(), removed_edges=())
         ok = {tgt for tgt, labs in labels.items() if want in labs}
         return ok or None
 
-    st0 = (start, ())
+    st0 = (start, tuple(sorted((known0 or {}).items())))
     prev = {st0: None}
     q = deque([st0])
     while q:
@@ -867,3 +867,18 @@ def shortest_path_flags(F, body, du, start, goals, removed=(), removed_edges=())
             prev[st] = (b, kn)
             q.append(st)
     return None
+
+
+def flags_after_chain(body, blocks):
+    """Constant bool / variant flags assigned in the given blocks (in order): {local: ('bool', v) | ('variant', v)}."""
+    flags = _flag_locals(body)
+    known = {}
+    for b in blocks:
+        for s_ in body.blocks[b]['s']:
+            if s_['k'] == 'assign' and not s_['lhs'].get('p') and s_['lhs']['l'] in flags:
+                rv = s_['rv']
+                if rv['k'] == 'agg':
+                    known[s_['lhs']['l']] = ('variant', rv['variant'])
+                else:
+                    known[s_['lhs']['l']] = ('bool', str(rv['o']['c']).endswith('true'))
+    return known
